@@ -22,8 +22,6 @@ func init() {
 		Text: "No built-in writes into, sorts in place, or calls a mutating method on an object reachable from its arguments."})
 	register(&Rule{ID: "R-NUMORDER", Floor: 3, Run: ruleNumOrder,
 		Text: "min, max and between never reach an ordering of printed forms (a string comparison) when both arguments are numbers: every call that can reach one lies outside the branch taken when the arguments test as numeric."})
-	register(&Rule{ID: "R-REGISTRY", Floor: 30, Run: ruleRegistry,
-		Text: "Each built-in is registered under the name of the function that implements it (\"min\" → fnMin …; \"time\" → fnNow is the one listed alias)."})
 }
 
 // builtinFns: functions of package environment whose first parameter is
@@ -880,33 +878,3 @@ func anyPredIsTest(b *ssa.BasicBlock, tests map[*ssa.BasicBlock]bool) bool {
 	return false
 }
 
-// ---------------------------------------------------------------------------
-// R-REGISTRY
-
-var registryAliases = map[string]string{"time": "fnNow"}
-
-func ruleRegistry(p *Program, r *Reporter) {
-	reg := registeredBuiltins(p)
-	if len(reg) == 0 {
-		r.Undecided("registrations", "-", "cannot read the SetFunction calls of the constructor")
-		return
-	}
-	var names []string
-	for n := range reg {
-		names = append(names, n)
-	}
-	sort.Strings(names)
-	for _, n := range names {
-		fn := reg[n]
-		want := "fn" + strings.ToUpper(n[:1]) + n[1:]
-		if a, ok := registryAliases[n]; ok {
-			want = a
-		}
-		key := "built-in \"" + n + "\""
-		if fn.Name() == want {
-			r.Ok(key, p.Pos(fn.Pos()), "→ "+fn.Name())
-		} else {
-			r.Fail(key, p.Pos(fn.Pos()), fmt.Sprintf("the name %q is registered for %s; the function implementing it is %s", n, fn.Name(), want))
-		}
-	}
-}
